@@ -40,6 +40,7 @@ OL = "ext/orderinglist.py"
 AP = "ext/associationproxy.py"
 ORDER_CALLS = ("_reorder", "reorder", "_order_entity")
 LIST_SEM = {k: v for k, v in load("python_list_index_semantics.json").items() if k != "_comment"}
+SLICE_SEM = {k: v for k, v in load("python_list_slice_arguments.json").items() if k != "_comment"}
 
 #: list mutators that need no renumbering in OrderingList -- {mutator: reason}
 OL_EXEMPT = {
@@ -402,9 +403,9 @@ class _OLModel:
                 for tg in st.targets:
                     if isinstance(tg, ast.Name) and tg.id in env:
                         del env[tg.id]
-                    elif isinstance(tg, ast.Subscript) and not isinstance(tg.slice, ast.Slice):
+                    elif isinstance(tg, ast.Subscript):
                         v = self.ev(tg.value, env, depth)
-                        i = self.ev(tg.slice, env, depth)
+                        i = self.index_value(tg.slice, env, depth)
                         if v is _SELF:
                             self.call_self("__delitem__", [i], {}, depth)
                         elif isinstance(v, list):
@@ -461,9 +462,11 @@ class _OLModel:
                 and not any(isinstance(t, ast.Starred) for t in tg.elts):
             for t1, v1 in zip(tg.elts, v):
                 self.bind(t1, v1, env, depth)
-        elif isinstance(tg, ast.Subscript) and not isinstance(tg.slice, ast.Slice):
+        elif isinstance(tg, ast.Subscript):
             recv = self.ev(tg.value, env, depth)
-            i = self.ev(tg.slice, env, depth)
+            i = self.index_value(tg.slice, env, depth)
+            if isinstance(i, slice) and isinstance(recv, dict):
+                raise _Unmodelled(f"assignment target `{unparse(tg)}`")
             if recv is _SELF:
                 self.call_self("__setitem__", [i, v], {}, depth)
             elif isinstance(recv, list):
@@ -476,6 +479,28 @@ class _OLModel:
             raise _Unmodelled(f"assignment target `{unparse(tg)}`")
 
     # ---- expressions
+    def index_value(self, sl, env, depth):
+        """the subscript of `x[...]`: an int / key, or a slice object built from a literal `a:b:c`"""
+        if isinstance(sl, ast.Slice):
+            parts = [None if x is None else self.ev(x, env, depth) for x in (sl.lower, sl.upper, sl.step)]
+            if not all(p is None or (isinstance(p, int) and not isinstance(p, bool)) for p in parts):
+                raise _Unmodelled(f"slice bounds `{unparse(sl)}`")
+            return slice(*parts)
+        return self.ev(sl, env, depth)
+
+    def pos_args(self, c, env, depth):
+        """positional arguments of a call, `*<tuple/list/range>` spliced in"""
+        out = []
+        for a in c.args:
+            if isinstance(a, ast.Starred):
+                v = self.seq(self.ev(a.value, env, depth))
+                if not isinstance(v, (list, tuple, range)):
+                    raise _Unmodelled(f"star-args `{unparse(a)}`")
+                out.extend(v)
+            else:
+                out.append(self.ev(a, env, depth))
+        return out
+
     @staticmethod
     def truth(v):
         if isinstance(v, (_Opaque, _Bound, _Ent)):
@@ -624,6 +649,11 @@ class _OLModel:
                 return _Bound("pylist", e.attr, v)
             if isinstance(v, int) and not isinstance(v, bool) and e.attr == "__index__":
                 return _Bound("const", e.attr, v)
+            if isinstance(v, slice):
+                if e.attr in ("start", "stop", "step"):
+                    return getattr(v, e.attr)
+                if e.attr == "indices":
+                    return _Bound("slice", "indices", v)
             raise _Unmodelled(f"`{unparse(e)}`")
         if isinstance(e, ast.Subscript):
             v = self.seq(self.ev(e.value, env, depth))
@@ -642,6 +672,12 @@ class _OLModel:
                     return v[i]
                 except IndexError:
                     raise _PyRaise("IndexError")
+            if isinstance(v, (list, tuple, range)) and isinstance(i, slice):
+                try:
+                    r = v[i]
+                except ValueError:
+                    raise _PyRaise("ValueError")
+                return list(r) if isinstance(v, list) else r
             if isinstance(v, dict):
                 try:
                     return v[i]
@@ -687,22 +723,20 @@ class _OLModel:
 
     def call(self, c, env, depth):
         f = c.func
-        if any(isinstance(a, ast.Starred) for a in c.args):
-            raise _Unmodelled("star-args")
         star_kw = [k for k in c.keywords if k.arg is None]
         if isinstance(f, ast.Name) and f.id not in env:
             return self.builtin(f.id, c, env, depth)
         if isinstance(f, ast.Attribute) and isinstance(f.value, ast.Name) and f.value.id not in env and f.value.id != "list":
             # module.function(...): operator.index() is understood, anything else (util.warn, log.debug) is assumed
             # to have no effect on the list
-            args = [self.ev(a, env, depth) for a in c.args]
+            args = self.pos_args(c, env, depth)
             if f.value.id == "operator" and f.attr == "index" and len(args) == 1 and isinstance(args[0], int) and not isinstance(args[0], bool):
                 return args[0]
             if any(a is _SELF or isinstance(a, _Ent) for a in args) and f.attr not in ("warn", "debug", "info", "warning", "error"):
                 raise _Unmodelled(f"`{unparse(c)[:50]}` is handed the list / an entity")
             return _Opaque()
         fv = self.ev(f, env, depth)
-        args = [self.ev(a, env, depth) for a in c.args]
+        args = self.pos_args(c, env, depth)
         kwargs = {k.arg: self.ev(k.value, env, depth) for k in c.keywords if k.arg is not None}
         if isinstance(fv, _Bound):
             if fv.kind == "self":
@@ -736,6 +770,11 @@ class _OLModel:
                 return self.pylist(fv.obj, fv.name, args)
             if fv.kind == "const" and not args and not kwargs:
                 return fv.obj
+            if fv.kind == "slice" and len(args) == 1 and not kwargs and isinstance(args[0], int) and not isinstance(args[0], bool):
+                try:
+                    return fv.obj.indices(args[0])
+                except ValueError:
+                    raise _PyRaise("ValueError")
             raise _Unmodelled(f"`{unparse(c)[:50]}`")
         if isinstance(fv, _Opaque):
             return _Opaque()          # a call on something that is not the list (logger, adapter): assumed effect-free
@@ -748,12 +787,14 @@ class _OLModel:
             tns = [k.id if isinstance(k, ast.Name) else None for k in kinds]
             if isinstance(v, int) and not isinstance(v, bool) and all(t in ("slice", "int") for t in tns):
                 return "int" in tns
+            if isinstance(v, slice) and all(t in ("slice", "int") for t in tns):
+                return "slice" in tns
             raise _Unmodelled(f"`{unparse(c)}`")
         if n == "super":
             if not c.args or (len(c.args) == 2 and unparse(c.args[1]) == "self"):
                 return _SUPER
             raise _Unmodelled(f"`{unparse(c)}`")
-        args = [self.ev(a, env, depth) for a in c.args]
+        args = self.pos_args(c, env, depth)
         kwargs = {k.arg: self.ev(k.value, env, depth) for k in c.keywords if k.arg is not None}
         ints = all(isinstance(a, int) and not isinstance(a, bool) for a in args)
         known = ("int", "len", "min", "max", "abs", "range", "enumerate", "list", "tuple", "reversed", "getattr", "setattr",
@@ -769,6 +810,11 @@ class _OLModel:
             raise _Unmodelled(f"`{unparse(c)[:50]}`")
         if n == "int" and len(args) == 1 and ints:
             return args[0]
+        if n == "int" and len(args) == 1 and isinstance(args[0], slice) and not kwargs:
+            raise _PyRaise("TypeError")
+        if n == "slice" and 1 <= len(args) <= 3 and not kwargs \
+                and all(a is None or (isinstance(a, int) and not isinstance(a, bool)) for a in args):
+            return slice(*args)
         if n == "bool" and len(args) == 1:
             return self.truth(args[0])
         if n == "len" and len(args) == 1:
@@ -833,13 +879,33 @@ def _ol_inputs(kinds, n):
         return [(f"e{i}", lambda m, i=i: [m.items[i]]) for i in range(n)] + [("absent", lambda m: [_Ent("absent")])]
     if kinds == []:
         return [("", lambda m: [])]
+    if kinds and kinds[0] == "slice":
+        bounds = [None] + list(range(-(n + 1), n + 2))
+        out = []
+        for st in (None, 1, 2, -1, -2):
+            for a in bounds:
+                for b in bounds:
+                    sl = slice(a, b, st)
+                    lab = f"slice({a}, {b}, {st})"
+                    if kinds == ["slice"]:
+                        out.append((lab, lambda m, sl=sl: [sl]))
+                    elif kinds == ["slice", "news"]:
+                        # as many new entities as the slice selects (the only length an extended slice accepts), and one
+                        # more / one less for a plain slice (the list grows / shrinks)
+                        k = len(range(*sl.indices(n)))
+                        for cnt in sorted({k} | ({max(k - 1, 0), k + 1} if st in (None, 1) else set())):
+                            out.append((f"{lab}, [{cnt} new]", lambda m, sl=sl, cnt=cnt: [sl, [_Ent(f"new{j}") for j in range(cnt)]]))
+                    else:
+                        raise _Unmodelled(f"argument shape {kinds}")
+        return out
     raise _Unmodelled(f"argument shape {kinds}")
 
 
 @R.rule("C50-R3", floor=8, template="T-MODEL",
         desc="small-scope model check by abstract execution of OrderingList's source: for every overridden list mutator, "
              "every list length 0..3, every int index in [-(n+2), n+2] (Python semantics: negative counts from the end, "
-             "insert clamps) and both reorder_on_append settings, the operation ends -- normally or by the builtin's "
+             "insert clamps), for __delitem__/__setitem__ also every slice with bounds None or in [-(n+1), n+1] and step "
+             "None, 1, 2, -1, -2 (a negative step walks downwards), and both reorder_on_append settings, the operation ends -- normally or by the builtin's "
              "IndexError/ValueError -- with position == index for EVERY element of the list, the new one included")
 def r3(ctx):
     cls = ctx.index.cls(f"{OL}::OrderingList")
@@ -856,9 +922,10 @@ def r3(ctx):
         key = f"{f.key}:position==index"
         worst = None
         runs = 0
+        shapes = [LIST_SEM[m]["args"]] + ([SLICE_SEM[m]["args"]] if m in SLICE_SEM else [])
         for n in range(0, 4):
             for roa in (False, True):
-                for label, mk in _ol_inputs(LIST_SEM[m]["args"], n):
+                for label, mk in [x for kinds in shapes for x in _ol_inputs(kinds, n)]:
                     model = _OLModel(cls, n, roa)
                     args = mk(model)
                     start = [repr(e) for e in model.items]
